@@ -54,6 +54,41 @@ enum TryRes {
     Dropped,
 }
 
+#[derive(Clone, Copy, Debug, PartialEq, Eq)]
+enum DAct {
+    Spawn(usize),
+    Pulse(usize),
+}
+
+#[derive(Clone, Copy, Debug, PartialEq, Eq)]
+enum DOut {
+    SpawnErr,
+    Spawned,
+    Quiet,
+    Panic,
+}
+
+#[derive(Clone, Copy, Debug, PartialEq, Eq)]
+enum FOp {
+    Send(u64),
+    Poll(usize),
+    Try,
+    DropSender,
+    DropReceiver,
+}
+
+#[derive(Clone, Copy, Debug, PartialEq, Eq)]
+enum FOut {
+    Sent(Option<usize>),
+    SendErr(u64),
+    Pending,
+    Ready(u64),
+    Try(TryRes),
+    Dropped,
+    Skip,
+    Panic,
+}
+
 #[derive(Clone, Debug, PartialEq, Eq)]
 enum PEvent {
     Wake(usize),
@@ -255,6 +290,7 @@ impl Future for ScriptTask {
 }
 
 struct Outcome {
+    douts: Vec<DOut>,
     log: Vec<Rec>,
     obs: Vec<(usize, TryRes, TryRes)>,
     polls: usize,
@@ -317,7 +353,7 @@ fn to_records(events: &[Ev]) -> Vec<Rec> {
     out
 }
 
-fn run_system(fuel: usize, scripts: &[Vec<Action>], plan: &[XAct]) -> Outcome {
+fn run_system(fuel: usize, scripts: &[Vec<Action>], plan: &[XAct], tail: Option<&[DAct]>) -> Outcome {
     let executor: Executor<'static> = Executor::new();
     let w: W = Rc::new(RefCell::new(World {
         scripts: scripts.to_vec(),
@@ -398,6 +434,40 @@ fn run_system(fuel: usize, scripts: &[Vec<Action>], plan: &[XAct]) -> Outcome {
             break 'plan;
         }
     }
+    let mut douts = vec![];
+    if let Some(tail) = tail {
+        // the executor goes away; the spawner, the wakers and the receivers stay
+        let spawner = w.borrow().spawner.clone();
+        drop(executor);
+        if !panicked {
+            for a in tail {
+                let r = catch_unwind(AssertUnwindSafe(|| match *a {
+                    DAct::Spawn(s) => {
+                        let pc: VecDeque<Action> = scripts.get(s).cloned().unwrap_or_default().into();
+                        let t = ScriptTask { id: usize::MAX, pc, recvs: VecDeque::new(), world: Rc::clone(&w) };
+                        match unsafe { spawner.spawn(t) } {
+                            Ok(_) => DOut::Spawned,
+                            Err(_) => DOut::SpawnErr,
+                        }
+                    }
+                    DAct::Pulse(k) => {
+                        let ws: Vec<Waker> = w
+                            .borrow()
+                            .waiters
+                            .iter()
+                            .filter(|(f, _, _)| *f == k)
+                            .map(|(_, _, wk)| wk.clone())
+                            .collect();
+                        for (i, wk) in ws.into_iter().enumerate() {
+                            if i % 2 == 0 { wk.wake_by_ref() } else { wk.wake() }
+                        }
+                        DOut::Quiet
+                    }
+                }));
+                douts.push(r.unwrap_or(DOut::Panic));
+            }
+        }
+    }
     let mut obs = vec![];
     if !panicked {
         for (id, r) in &roots {
@@ -408,7 +478,7 @@ fn run_system(fuel: usize, scripts: &[Vec<Action>], plan: &[XAct]) -> Outcome {
     }
     let wb = w.borrow();
     let fuel_out = fuel_out || wb.polls > fuel;
-    Outcome { log: to_records(&wb.events), obs, polls: wb.polls, tasks: wb.next_tid, fuel_out }
+    Outcome { douts, log: to_records(&wb.events), obs, polls: wb.polls, tasks: wb.next_tid, fuel_out }
 }
 
 // ---- printing ---------------------------------------------------------------
@@ -549,7 +619,17 @@ const FUEL: usize = 2000;
 /// Runs the case on the real executor and writes it.  Returns false if the case
 /// was dropped (step budget exhausted).
 fn emit(w: &mut CasesWriter, stream: &str, scripts: &[Vec<Action>], plan: &[XAct]) -> bool {
-    let o = run_system(FUEL, scripts, plan);
+    emit_tail(w, stream, scripts, plan, None)
+}
+
+fn emit_tail(
+    w: &mut CasesWriter,
+    stream: &str,
+    scripts: &[Vec<Action>],
+    plan: &[XAct],
+    tail: Option<&[DAct]>,
+) -> bool {
+    let o = run_system(FUEL, scripts, plan, tail);
     if o.fuel_out {
         w.count("dropped:budget");
         return false;
@@ -641,23 +721,63 @@ fn emit(w: &mut CasesWriter, stream: &str, scripts: &[Vec<Action>], plan: &[XAct
         .iter()
         .map(|(t, a, b)| format!("({}, ({}, {}))", t, a.coq(), b.coq()))
         .collect();
-    let term = format!(
-        "(({}, {}, {}), ({}, {}))",
+    let inp = format!(
+        "({}, {}, {})",
         FUEL,
         list_typed(&scripts_coq, "script"),
-        list_typed(&plan_coq, "xact"),
-        list_typed(&log_coq, "rec"),
-        list_typed(&obs_coq, "tid * (tryres * tryres)")
+        list_typed(&plan_coq, "xact")
     );
+    let term = match tail {
+        None => format!(
+            "(CSys {} ({}, {}))",
+            inp,
+            list_typed(&log_coq, "rec"),
+            list_typed(&obs_coq, "tid * (tryres * tryres)")
+        ),
+        Some(tail) => {
+            let tail_coq: Vec<String> = tail
+                .iter()
+                .map(|a| match a {
+                    DAct::Spawn(s) => format!("DSpawn {}", s),
+                    DAct::Pulse(k) => format!("DPulse {}", k),
+                })
+                .collect();
+            let douts_coq: Vec<String> = o
+                .douts
+                .iter()
+                .map(|d| match d {
+                    DOut::SpawnErr => "DoSpawnErr".to_string(),
+                    DOut::Spawned => "DoSpawned".to_string(),
+                    DOut::Quiet => "DoQuiet".to_string(),
+                    DOut::Panic => "DoPanic".to_string(),
+                })
+                .collect();
+            if o.obs.iter().any(|(_, a, _)| *a == TryRes::Dropped) {
+                w.count("feature:sender-dropped-with-executor");
+            }
+            format!(
+                "(CDead {} {} ({}, {}, {}))",
+                inp,
+                list_typed(&tail_coq, "dact"),
+                list_typed(&log_coq, "rec"),
+                list_typed(&douts_coq, "dout"),
+                list_typed(&obs_coq, "tid * (tryres * tryres)")
+            )
+        }
+    };
     let show_scripts: Vec<String> = scripts
         .iter()
         .enumerate()
         .map(|(i, s)| format!("#{i}:[{}]", s.iter().map(|a| a.show()).collect::<Vec<_>>().join(" ")))
         .collect();
     let json = format!(
-        "{{\"scripts\":{},\"plan\":{},\"log\":{},\"receivers\":{}}}",
+        "{{\"scripts\":{},\"plan\":{},\"after_dropping_executor\":{},\"log\":{},\"receivers\":{}}}",
         yv_harness::json_str(&show_scripts.join(" ")),
         yv_harness::json_str(&plan.iter().map(|x| x.show()).collect::<Vec<_>>().join(" ")),
+        yv_harness::json_str(&match tail {
+            None => "-".to_string(),
+            Some(t) => format!("{:?} -> {:?}", t, o.douts),
+        }),
         yv_harness::json_str(&o.log.iter().map(|r| r.show()).collect::<Vec<_>>().join(" ")),
         yv_harness::json_str(
             &o.obs
@@ -858,6 +978,136 @@ fn all_scripts(maxlen: usize, child: Option<usize>) -> Vec<Vec<Action>> {
     res
 }
 
+// ---- one Sender/Receiver pair driven directly ----------------------------------
+
+struct CountWaker {
+    hits: std::sync::atomic::AtomicUsize,
+}
+impl std::task::Wake for CountWaker {
+    fn wake(self: std::sync::Arc<Self>) {
+        self.hits.fetch_add(1, std::sync::atomic::Ordering::SeqCst);
+    }
+}
+
+fn run_pair(ops: &[FOp]) -> Vec<FOut> {
+    use std::sync::Arc;
+    use std::sync::atomic::Ordering;
+    let (s, r) = yash_executor::forwarder::forwarder::<u64>();
+    let mut sender = Some(s);
+    let mut receiver = Some(r);
+    let cws: Vec<Arc<CountWaker>> =
+        (0..4).map(|_| Arc::new(CountWaker { hits: Default::default() })).collect();
+    let wakers: Vec<Waker> = cws.iter().map(|c| Waker::from(Arc::clone(c))).collect();
+    let mut outs = vec![];
+    for op in ops {
+        let r = catch_unwind(AssertUnwindSafe(|| match *op {
+            FOp::Send(v) => match sender.take() {
+                None => FOut::Skip,
+                Some(s) => {
+                    let before: Vec<usize> = cws.iter().map(|c| c.hits.load(Ordering::SeqCst)).collect();
+                    match s.send(v) {
+                        Ok(()) => {
+                            let woken = (0..4).find(|i| cws[*i].hits.load(Ordering::SeqCst) > before[*i]);
+                            FOut::Sent(woken)
+                        }
+                        Err(v) => FOut::SendErr(v),
+                    }
+                }
+            },
+            FOp::Poll(wi) => match receiver.as_mut() {
+                None => FOut::Skip,
+                Some(r) => {
+                    let mut cx = Context::from_waker(&wakers[wi]);
+                    match Pin::new(r).poll(&mut cx) {
+                        Poll::Ready(v) => FOut::Ready(v),
+                        Poll::Pending => FOut::Pending,
+                    }
+                }
+            },
+            FOp::Try => match receiver.as_ref() {
+                None => FOut::Skip,
+                Some(r) => FOut::Try(try_res(r.try_receive())),
+            },
+            FOp::DropSender => match sender.take() {
+                None => FOut::Skip,
+                Some(_) => FOut::Dropped,
+            },
+            FOp::DropReceiver => match receiver.take() {
+                None => FOut::Skip,
+                Some(_) => FOut::Dropped,
+            },
+        }));
+        match r {
+            Ok(o) => outs.push(o),
+            Err(_) => {
+                outs.push(FOut::Panic);
+                // the RefCell of the relay may be left borrowed: forget the halves
+                std::mem::forget(sender.take());
+                std::mem::forget(receiver.take());
+                break;
+            }
+        }
+    }
+    outs
+}
+
+fn emit_pair(w: &mut CasesWriter, ops: &[FOp]) {
+    let outs = run_pair(ops);
+    w.count("stream:sender-receiver-pair");
+    for o in &outs {
+        match o {
+            FOut::SendErr(_) => w.count("feature:send-to-dropped-receiver"),
+            FOut::Try(TryRes::Dropped) => w.count("feature:try_receive-sender-dropped"),
+            FOut::Try(TryRes::Already) => w.count("feature:try_receive-already-received"),
+            FOut::Panic => w.count("feature:poll-after-ready-panics"),
+            _ => {}
+        }
+    }
+    let ops_coq: Vec<String> = ops
+        .iter()
+        .map(|o| match o {
+            FOp::Send(v) => format!("FSend {}", coq::n(*v)),
+            FOp::Poll(i) => format!("FPoll {}", i),
+            FOp::Try => "FTry".into(),
+            FOp::DropSender => "FDropSender".into(),
+            FOp::DropReceiver => "FDropReceiver".into(),
+        })
+        .collect();
+    let outs_coq: Vec<String> = outs
+        .iter()
+        .map(|o| match o {
+            FOut::Sent(x) => format!("FoSent {}", coq::opt(x.map(|i| i.to_string()))),
+            FOut::SendErr(v) => format!("FoSendErr {}", coq::n(*v)),
+            FOut::Pending => "FoPending".into(),
+            FOut::Ready(v) => format!("FoReady {}", coq::n(*v)),
+            FOut::Try(r) => format!("FoTry {}", r.coq()),
+            FOut::Dropped => "FoDropped".into(),
+            FOut::Skip => "FoSkip".into(),
+            FOut::Panic => "FoPanic".into(),
+        })
+        .collect();
+    let term = format!("(CPair {} {})", list_typed(&ops_coq, "fop"), list_typed(&outs_coq, "fout"));
+    let json = format!(
+        "{{\"pair_ops\":{},\"answers\":{}}}",
+        yv_harness::json_str(&format!("{:?}", ops)),
+        yv_harness::json_str(&format!("{:?}", outs))
+    );
+    w.push(&term, &json, &[], None);
+}
+
+fn random_pair_ops(r: &mut Rng) -> Vec<FOp> {
+    let len = 1 + r.below(8);
+    (0..len)
+        .map(|_| match r.below(100) {
+            0..=24 => FOp::Send(1 + r.below(9) as u64),
+            25..=49 => FOp::Poll(r.below(4)),
+            50..=74 => FOp::Try,
+            75..=86 => FOp::DropSender,
+            _ => FOp::DropReceiver,
+        })
+        .collect()
+}
+
 fn main() {
     let args = Args::parse();
     std::panic::set_hook(Box::new(|_| {}));
@@ -881,6 +1131,37 @@ fn main() {
         let mut r = rng.fork(1_000_000 + k as u64);
         let (scripts, plan) = random_system(&mut r, true);
         emit(&mut w, "random-large", &scripts, &plan);
+    }
+
+    // the executor is dropped after the plan: SpawnError, silent wakes, SenderDropped
+    let n_dead = args.scale(150, 3000);
+    for k in 0..n_dead {
+        let mut r = rng.fork(2_000_000 + k as u64);
+        let (scripts, mut plan) = random_system(&mut r, false);
+        // often stop early so that tasks are still queued when the executor goes
+        if r.chance(2, 3) {
+            let keep = 1 + r.below(plan.len());
+            plan.truncate(keep);
+            plan.retain(|x| !matches!(x, XAct::Drain | XAct::Run));
+            for _ in 0..r.below(4) {
+                plan.push(XAct::Step);
+            }
+        }
+        let tail: Vec<DAct> = (0..1 + r.below(3))
+            .map(|_| if r.chance(1, 2) { DAct::Spawn(r.below(scripts.len())) } else { DAct::Pulse(r.below(3)) })
+            .collect();
+        emit_tail(&mut w, "executor-dropped", &scripts, &plan, Some(&tail));
+    }
+    // Sender/Receiver pairs on their own
+    emit_pair(&mut w, &[FOp::Poll(1), FOp::Poll(2), FOp::Send(7), FOp::Try, FOp::Try]);
+    emit_pair(&mut w, &[FOp::DropReceiver, FOp::Send(3)]);
+    emit_pair(&mut w, &[FOp::Try, FOp::DropSender, FOp::Try, FOp::Poll(0)]);
+    emit_pair(&mut w, &[FOp::Send(5), FOp::Poll(0), FOp::Poll(0)]);
+    let n_pair = args.scale(150, 3000);
+    for k in 0..n_pair {
+        let mut r = rng.fork(3_000_000 + k as u64);
+        let ops = random_pair_ops(&mut r);
+        emit_pair(&mut w, &ops);
     }
 
     if args.thorough() {
